@@ -118,7 +118,13 @@ func (m *c03Momentum) GetBlockConfirmationHeight(hash types.Hash) (uint64, error
 }
 func (m *c03Momentum) GetAccountMailbox(address types.Address) store.AccountMailbox { return nil }
 func (m *c03Momentum) GetAccountStore(address types.Address) store.Account {
-	return m.accounts[address]
+	// the confirmed state of an account as of this momentum: independent of the (possibly unconfirmed) account chain
+	if a, ok := m.accounts[address]; ok {
+		return a
+	}
+	a := &c03Account{addr: address, received: map[types.Hash]bool{}}
+	m.accounts[address] = a
+	return a
 }
 
 type c03Chain struct {
